@@ -623,7 +623,7 @@ struct H {
     static rc::Gen<Case> gen() {
         using namespace rc;
         return gen::map(gen::tuple(gen::resize(120, gen::container<std::vector<uint8_t>>(gen::arbitrary<uint8_t>())), pbt::range<int>(0, 40 * kDeepCount),
-                                   pbt::pick<int>({1, 1, 1, 2, 4})),
+                                   pbt::pick<int>({1, 1, 1, 2, 4, 3})),
                         [](std::tuple<std::vector<uint8_t>, int, int> t) {
                             Case c;
                             c.bytes = std::get<0>(t);
@@ -697,6 +697,7 @@ struct H {
         ctx.label("remainder-by-zero", fl.rem_zero);
         switch (c.width) {
             case 2: run_lib<char16_t>(ctx, text, fl, expect); break;
+            case 3: run_lib<wchar_t>(ctx, text, fl, expect); break;
             case 4: run_lib<char32_t>(ctx, text, fl, expect); break;
             default: run_lib<char>(ctx, text, fl, expect); break;
         }
